@@ -2,30 +2,30 @@
 // failed: assertion failed: actual == expected @ capacity_proofs.rs:70
 // run: /verif/check --replay /verif/replays/C06/c06_cap_kernel_single_dim.rs
 #[test]
-fn kani_concrete_playback_c06_cap_kernel_single_dim_6719595651198085160() {
+fn kani_concrete_playback_c06_cap_kernel_single_dim_15007858481824150072() {
     let concrete_vals: Vec<Vec<u8>> = vec![
-        // 0
-        vec![0, 0],
-        // 0
-        vec![0, 0],
-        // 0
-        vec![0, 0],
         // 1
         vec![1, 0],
-        // 32767
-        vec![255, 127],
-        // 32767
-        vec![255, 127],
-        // 32510
-        vec![254, 126],
+        // -15489
+        vec![127, 195],
+        // -16386
+        vec![254, 191],
+        // 16470
+        vec![86, 64],
+        // 128
+        vec![128, 0],
+        // 257
+        vec![1, 1],
+        // 10665
+        vec![169, 41],
         // 0
         vec![0, 0],
-        // -32767
-        vec![1, 128],
-        // -32768
-        vec![0, 128],
-        // 1
-        vec![1, 0],
+        // 7716
+        vec![36, 30],
+        // 15490
+        vec![130, 60],
+        // 8695
+        vec![247, 33],
         // 0
         vec![0],
     ];
@@ -33,10 +33,10 @@ fn kani_concrete_playback_c06_cap_kernel_single_dim_6719595651198085160() {
 }
 
 #[test]
-fn kani_concrete_playback_c06_cap_kernel_single_dim_11315683305282844155() {
+fn kani_concrete_playback_c06_cap_kernel_single_dim_10008433525164498758() {
     let concrete_vals: Vec<Vec<u8>> = vec![
-        // -3316
-        vec![12, 243],
+        // -500
+        vec![12, 254],
         // -3
         vec![253, 255],
         // -2
@@ -64,61 +64,61 @@ fn kani_concrete_playback_c06_cap_kernel_single_dim_11315683305282844155() {
 }
 
 #[test]
-fn kani_concrete_playback_c06_cap_kernel_single_dim_10835528784923574438() {
+fn kani_concrete_playback_c06_cap_kernel_single_dim_8122253325527692904() {
     let concrete_vals: Vec<Vec<u8>> = vec![
-        // -15
-        vec![241, 255],
-        // -1
-        vec![255, 255],
-        // -1
-        vec![255, 255],
-        // -32767
-        vec![1, 128],
-        // -32768
-        vec![0, 128],
-        // -32768
-        vec![0, 128],
-        // -258
-        vec![254, 254],
-        // -1
-        vec![255, 255],
-        // -7
-        vec![249, 255],
-        // -15
-        vec![241, 255],
-        // -32759
-        vec![9, 128],
-        // 1
-        vec![1],
+        // 30733
+        vec![13, 120],
+        // 31773
+        vec![29, 124],
+        // 32189
+        vec![189, 125],
+        // -417
+        vec![95, 254],
+        // -7454
+        vec![226, 226],
+        // -15806
+        vec![66, 194],
+        // 8352
+        vec![160, 32],
+        // 16499
+        vec![115, 64],
+        // -16904
+        vec![248, 189],
+        // -887
+        vec![137, 252],
+        // 56
+        vec![56, 0],
+        // 0
+        vec![0],
     ];
     kani::concrete_playback_run(concrete_vals, c06_cap_kernel_single_dim);
 }
 
 #[test]
-fn kani_concrete_playback_c06_cap_kernel_single_dim_4906597883175476364() {
+fn kani_concrete_playback_c06_cap_kernel_single_dim_7036689098036283325() {
     let concrete_vals: Vec<Vec<u8>> = vec![
-        // 32175
-        vec![175, 125],
-        // 30861
-        vec![141, 120],
-        // 21792
-        vec![32, 85],
-        // 5060
-        vec![196, 19],
-        // -3470
-        vec![114, 242],
-        // -8225
-        vec![223, 223],
-        // -17605
-        vec![59, 187],
-        // 14195
-        vec![115, 55],
-        // -13269
-        vec![43, 204],
-        // -286
-        vec![226, 254],
-        // 31825
-        vec![81, 124],
+        // -1
+        vec![255, 255],
+        // -16386
+        vec![254, 191],
+        // -145
+        vec![111, 255],
+        // -1
+        vec![255, 255],
+        // -32511
+        vec![1, 129],
+        // -28528
+        vec![144, 144],
+        // -32768
+        vec![0, 128],
+        // 11986
+        vec![210, 46],
+        // -32320
+        vec![192, 129],
+        // 0
+        vec![0, 0],
+        // -16382
+        vec![2, 192],
         // 1
         vec![1],
     ];
